@@ -92,6 +92,9 @@ def run_variant(v, baseline):
             err = apply_edits(root, v["edits"])
         elif v.get("transform") == "roundtrip":
             err = roundtrip(root)
+        elif v.get("transform") == "rename_locals":
+            from . import transforms
+            err = transforms.rename_locals(root)
         else:
             err = apply_edits(root, v["edits"])
         if err:
@@ -161,6 +164,7 @@ def variants_for(prop):
     from . import variants
     vs = [dict(v, prop=prop) for v in variants.VARIANTS.get(prop, [])]
     vs.append(dict(prop=prop, name="benign-ast-roundtrip", kind="benign", transform="roundtrip", edits=[]))
+    vs.append(dict(prop=prop, name="benign-rename-every-local", kind="benign", transform="rename_locals", edits=[]))
     for b in variants.BENIGN_ALL:
         vs.append(dict(b, prop=prop))
     vs += unrepair_variants(prop)
